@@ -52,7 +52,9 @@ func C10(ctx *core.Ctx) int {
 	})
 	nd := 0
 	distinct.Range(func(k, v any) bool { nd++; return true })
+	histSeqs, histAnswers := formatHistories(ctx)
 	cov := core.Coverage{
+		"format_histories": map[string]any{"sequences": histSeqs, "distinct_answers": histAnswers, "rule": "per base text with free text: variants differing in one comment / doc string / string literal / number by an edit a lossy key ignores (blank-run lengths, tabs, case, same-length content, trailing blank); every ordered pair (base, variant), (variant, base) and of two variants of one region formatted as a sequence in a fresh process; the second answer = the answer of a process formatting it alone"},
 		"evaluations":         evals,
 		"distinct_nontrivial": nd,
 		"rule": fmt.Sprintf("texts = every derivation of each of the 18 grammar rules within %d non-default choices (in minimal context) + E1 programs + repository samples; "+
